@@ -45,7 +45,13 @@ TRUSTED = [
     "elimination over Qc), Eigen SelfAdjointEigenSolver (local and global; orthonormality + residual checked by the "
     "extracted eig_contract_b against the model's exact matrix), sqrt (1/sqrt(k) passed as a value, k*rsk^2=1 checked)",
     "IEEE rounding: models are exact (Qc); comparisons use a declared tolerance (1e-7 relative for assembled matrices, "
-    "1e-8 for the embedding clauses)",
+    "1e-8 for the embedding clauses), widened on ill-conditioned local eigenproblems to 64 k eps top/gap (first-order "
+    "perturbation bound of the selected eigenvectors; at most 5e-3, beyond that the case is not compared)",
+    "scaled copies (kernel table times 2^-60 .. 2^60) rely on power-of-two scaling being exact in binary64 and on "
+    "C08_lle_scale_free / C08_local_gram_scale / C08_eig_contract_scale (the property's matrix does not change)",
+    "stream hlle-curved-sym: that the integer columns span the top-d local eigenspace is certified per neighbourhood in "
+    "exact rational arithmetic by the check (locv_certificate; C08_diag_cov_eigvec is the reason it holds); that the "
+    "HLLE local matrix depends on the tangent coordinates only through their span is used, not proved",
     "extraction (ExtrOcamlBasic only) + OCaml 4.13.1 + coq/extract/c08_driver.ml (parsing/printing of hex rationals)",
     "harness/c08.cpp: replicates the local oracle calls and the statements of tapkee::embed()/embedUsing for the three "
     "methods only (the generic 20-method dispatcher is not instantiated: compile time)",
@@ -1562,7 +1568,9 @@ def run(ctx):
         rule="cases = corpus + per-tier fixed counts from the generators in the histogram (integer point sets in "
              "1-4 dimensions, linear / quadratic-polynomial / RBF kernel tables, k from 1 (routines) or 3 (methods) "
              "to N-1, d 1..4, true k-NN and random neighbour lists incl. duplicates, d-flat data with integer "
-             "intrinsic coordinates, malformed neighbour tables, N = d+1). evaluation = one harness case "
+             "intrinsic coordinates, the same flats shrunk along all but one intrinsic axis by 2^-10 .. 2^-16, copies "
+             "of every stream with the kernel table scaled by 2^-60 .. 2^60, curved quadrics with reflection-symmetric "
+             "neighbourhoods (exact HLLE model at d = 2), malformed neighbour tables, N = d+1). evaluation = one harness case "
              "(routine call or embed()) with all its comparisons; non-trivial = a case whose assembled matrix was "
              "compared entrywise with the exact model or whose embedding went through the extracted decision "
              "procedure; distinct by hash of the case.",
@@ -1570,7 +1578,11 @@ def run(ctx):
         histogram={"generators": stats.hist, "counters": stats.counts},
         trusted_base=TRUSTED, assumptions=ASSUMPTIONS,
         extra={"tolerances": {"matrix_rel": float(REL_M), "embedding_rel": float(TOL_Y),
-                              "centring_rel": float(TOL_C), "eig_contract_rel": float(TOL_EIG)}})
+                              "centring_rel": float(TOL_C), "eig_contract_rel": float(TOL_EIG),
+                              "cond_safety": COND_SAFETY, "max_cond_tol": MAX_COND_TOL,
+                              "largest_matrix_rel_used": stats.worst_rel,
+                              "largest_entrywise_diff_over_tol": stats.worst_ratio,
+                              "largest_affine_residual_over_tol": stats.worst_affine}})
 
 
 def replay(ctx, case):
